@@ -37,7 +37,7 @@ INSTANTS = [0, 999, 1000, 59999999, 60 * S, 3599999000, 3600 * S, 3600 * S + 150
 TEXTS = [
     ["hello"], ["one", "two"], ["one", None, "two"], ["one", " ", "two"], ["42"], ["a --> b"],
     ["<i>x</i> & y"], ["&amp; &lt;"], ["{1}{2}x"], ["one", "two", "three", "four"], ["é ü 漢"],
-    ["He said", "...", "nothing"], ["?!"], ["♪ ♪"], ["100% sure %s %d %%"],
+    ["He said", "...", "nothing"], ["?!"], ["♪ ♪"], ["100% sure %s %d %%"], ["copy C:\\new\\notes.txt \\t \\N"],
 ]
 BAR = ["a|b"]
 
